@@ -702,6 +702,21 @@ func (w *world) checkMetrics(g int, acked map[string]bool, files int) {
 	if ackd != bCons {
 		w.violate("metrics:ack-vs-consumed", "generation %d: output acknowledged %d chunks, buffer consumed %d", g, ackd, bCons)
 	}
+	attempts := 0
+	nconns := 0
+	for i, e := range w.envs {
+		if w.envGen[i] != g {
+			continue
+		}
+		attempts += int(hutil.Sum(m, fmt.Sprintf("g%dv_vout%d_", g, i)+"forward_attempts_total"))
+		nconns += len(e.Conns)
+	}
+	if !(attempts >= fwd && fwd >= ackd) {
+		w.violate("metrics:forward-chain", "generation %d: forward attempts %d >= forwarded %d >= acknowledged %d does not hold", g, attempts, fwd, ackd)
+	}
+	if sentOK-fwd > nconns {
+		w.violate("metrics:forwarded-vs-upstream", "generation %d: the upstream received %d chunks completely on %d connections but only %d are counted as forwarded", g, sentOK, nconns, fwd)
+	}
 	if ackd > ackSeen || fwd > sentOK {
 		w.violate("metrics:output-vs-upstream", "generation %d: output forwarded %d / acknowledged %d chunks, the upstream received %d completely and acknowledged %d", g, fwd, ackd, sentOK, ackSeen)
 	}
